@@ -6,6 +6,8 @@ from harness import gens as G
 
 def impl(case):
     from harness import cls
+    if "steps" in case:
+        return {"stages": cls.classify_history(case["gens"], case["steps"])}
     out, _, _ = cls.classify(case["gens"], record=case.get("record", False))
     return out
 
@@ -62,7 +64,12 @@ def main():
     if ck.replay:
         rp = json.load(open(ck.replay)); ck.build()
         cases = [("replay", rp["n"], rp["gens"])]
-        res = ck.impl("c02", [{"gens": rp["gens"]}])
+        if str(rp.get("kind", "")).startswith("history:"):   # the same object classified, edited in place, classified again
+            h = json.loads(rp["kind"][len("history:"):])
+            print("history:", h)
+            res = [ck.impl("c02", [h])[0]["stages"][-1]]
+        else:
+            res = ck.impl("c02", [{"gens": rp["gens"]}])
         print("implementation:", res[0]); print("validator:", ck.oracle(requests(cases, res)))
         return
     if not ck.build():
@@ -76,6 +83,23 @@ def main():
     res = ck.impl("c02", [{"gens": g} for _, _, g in cases], per_case_s=120)
     ans = ck.oracle(requests(cases, res))
     nt = judge(ck, cases, res, ans)
+    # in-place histories: the same collection object is classified, edited through the public interface and classified again;
+    # every stage must be a valid reduction of the strings the object holds at that stage
+    from harness import cls
+    hist = []
+    for kind, n, g in G.collections(ck.rng, 250 if ck.quick else 2500, 3, 6):
+        steps, cur = cls.gen_steps(ck.rng, n, g, 1, 3)
+        hist.append({"gens": g, "steps": steps, "n": n, "expect": cur})
+    hres = ck.impl("c02", hist, per_case_s=300)
+    hc, hr = [], []
+    for c, r in zip(hist, hres):
+        if "exc" in r:
+            continue   # an edit the library rejects is C10's business
+        for si, stage in enumerate(r["stages"]):
+            if stage["gens"]:
+                hc.append(("history:" + json.dumps({"gens": c["gens"], "steps": c["steps"][:si]}), c["n"], stage["gens"])); hr.append(stage)
+    nt |= judge(ck, hc, hr, ck.oracle(requests(hc, hr)))
+    ck.cov["history_stages"] = len(hc)
     byn = {}
     for _, n, _g in cases:
         byn[n] = byn.get(n, 0) + 1
